@@ -5,7 +5,7 @@ from ..index import AnalysisError, dotted
 from ..astutil import text, short, endswith, calls_in, walk_no_nested, names_loaded
 from ..dataflow import DefUse
 from ._h_F import (ifn, sole_arg, Res, res_of, call_arg, absent, canon, strip_wrappers, iterations,
-                   loop_body_nodes, every_iteration)
+                   loop_body_nodes, every_iteration, need, repo_callees)
 
 EXPLANATION = (
   "Decides that no cell can be dropped by construction: the column count given to "
@@ -111,14 +111,20 @@ def r1_width(run, w):
     if tv is not None and text(a) == tv:
       return True
     return a is c or (isinstance(a, ast.Call) and endswith(fn.name(a), "get_table_data"))
-  ok = any(is_converted(z) and z.args[1].id == hv for z in zips)
+  paired = [z for z in zips if is_converted(z)]
+  need(paired, "the zip() pairing the converted columns with their headers", fn)
+  ok = all(z.args[1].id == hv for z in paired)
   run.ob(R1, fn.qualname, "zip(%s, %s)" % (tv, hv), "converted columns are paired with the header "
          "list whose length sized them (zip cannot truncate)", ok, fi=fn.fi)
   # the rows handed on are all rows from the data offset (an unbounded slice)
-  ok = any(isinstance(v, ast.Subscript) and isinstance(v.slice, ast.Slice) and
-           v.slice.upper is None and v.slice.step is None and isinstance(v.value, ast.Name)
-           for v in _defs(fn.node, rows)) and \
-      any(isinstance(v, ast.Call) and dotted(v.func) == "list" for v in _defs(fn.node, rows))
+  rdefs = _defs(fn.node, rows)
+  need(rdefs, "the definitions of the row list %s" % rows, fn)
+  slices = [v for v in rdefs if isinstance(v, ast.Subscript) and isinstance(v.slice, ast.Slice)]
+  for v in rdefs:
+    if v not in slices and not (isinstance(v, ast.Call) and dotted(v.func) == "list") and \
+        not isinstance(v, (ast.ListComp, ast.List)):
+      raise AnalysisError("_parse_open_file: %s = %s: not understood" % (rows, short(v, 50)))
+  ok = all(v.slice.upper is None and v.slice.step is None for v in slices)
   run.ob(R1, fn.qualname, "%s = list(reader); %s = %s[data_offset:]" % (rows, rows, rows),
          "all rows of the file from the data offset on are converted", ok, fi=fn.fi)
 
@@ -130,20 +136,30 @@ def _defs(fnode, name):
 
 
 def _one_per(r, e, nid, base, depth=0):
-  """Does collection `e` (at node nid) hold exactly one element per element of a base iterable
+  """(Returns the chain of Elements, None when the collection visibly does NOT hold one element
+  per source element -- filtered / conditional append / empty --, and raises AnalysisError when
+  the way it is built cannot be described.)
+  Does collection `e` (at node nid) hold exactly one element per element of a base iterable
   (base(expr, node id) -> bool), directly or through intermediate lists built one-per-element?
   Comprehensions without filters and append-loops that append exactly once per completed
   iteration count. Returns the list of Elements on success (for inspecting what is stored)."""
   els = r.elements(e, nid)
-  if els is None or len(els) != 1 or depth > 4:
-    return None
+  if els is None or depth > 4:
+    raise AnalysisError("%s: how %s is built is not understood" % (r.fn.qualname, short(e, 50)))
+  if not els:
+    return None                  # visibly empty
+  if len(els) != 1 or len(els[0].loops) != 1 or els[0].how not in ("comp", "append"):
+    raise AnalysisError("%s: %s is built in more than one step: not understood"
+                        % (r.fn.qualname, short(e, 50)))
   el = els[0]
-  if len(el.loops) != 1 or el.conds or el.how not in ("comp", "append"):
-    return None
+  if el.conds:
+    return None                  # visibly filtered: fewer elements than the source
   if el.how == "append":
     loop = r.enclosing(el.node.stmt, (ast.For,))
-    if not loop or not every_iteration(r, loop[-1], el.node.id):
-      return None
+    if not loop:
+      raise AnalysisError("%s: append outside a loop: not understood" % r.fn.qualname)
+    if not every_iteration(r, loop[-1], el.node.id):
+      return None                # visibly not once per element
   it = el.loops[0][1]
   at = el.node.id if el.node is not None else nid
   if el.how == "append":
@@ -280,7 +296,19 @@ def r2_table_data(run, w):
   pad_ok = bool(pads) and (
     r.guarded(feed.id, nothing_missing(False), False, starts=first, removed=pads) or
     r.guarded(feed.id, nothing_missing(True), True, starts=first, removed=pads))
-  # and nothing shortens or re-pads the row between the padding and the feed
+  if not pad_ok:
+    # padding done somewhere the rule cannot see (a call that receives the row, or some other way
+    # of lengthening it) is undecided; a row that visibly reaches the feed loop as it came is not
+    opaque = [c for n in cfg.nodes if n.id in body and n.id != feed.id for c in calls_in(n.exprs)
+              if any(isinstance(x, ast.Name) and x.id == rowvar
+                     for a in list(c.args) + [k.value for k in c.keywords] for x in ast.walk(a))
+              and (repo_callees(w, fn, c) or (isinstance(c.func, ast.Attribute) and
+                                               c.func.attr in ("extend", "append", "insert")
+                                               and text(c.func.value) == rowvar))]
+    rebinds = [d for d in r.defs.get(rowvar, ()) if d in body]
+    if (opaque and not pads) or rebinds:
+      raise AnalysisError("get_table_data: how short rows are lengthened is not understood (%s)"
+                          % (short(opaque[0], 60) if opaque else "row rebound in the loop"))
   run.ob(R2, fn.qualname, "if missing > 0: row.extend([''] * missing)",
          "rows shorter than the table are padded before they are fed, so zip never truncates the "
          "converters", pad_ok, fi=fn.fi)
@@ -324,6 +352,7 @@ def r3_converter(run, w):
   cfg = fn.xcfg
   apps = fn.nodes_calling(lambda c, nm, f: nm == "self._all_col_values.append", cfg)
   # at most once per path
+  need(apps, "where a cell's value is stored (self._all_col_values.append)", fn)
   once = all(not (cfg.reach_after({a}) & apps) for a in apps)
   run.ob(R3, fn.qualname, "self._all_col_values.append(...) exactly once on every path",
          "a converted value, or the text of a value that failed to convert, is stored for every "
@@ -377,6 +406,7 @@ def r4_filter(run, w):
   keeps = {n.id for n in cfg.nodes if n.id in body and
            any(isinstance(c.func, ast.Attribute) and c.func.attr in ("append", "extend")
                for c in calls_in(n.exprs))}
+  need(keeps, "where a kept column is collected", fn)
   first = {s for h in heads for s in cfg.succ[h] if s in body}
   def no_header(a, node):
     return text(a) == hv
